@@ -129,7 +129,7 @@ def write_fit_file(path, infos):
 def twin_records(W, d, scen, lines, use_memmap=True):
     """Object-interface twin of fit(): same Fitter arguments, sources parsed from the same lines."""
     names, ap = filter_args(W, scen)
-    ft = Fitter(names, ap, d, use_memmap=use_memmap, **fitter_kwargs(W, scen))
+    ft = Fitter(names, ap, d, use_memmap=use_memmap, remove_resolved=bool(scen.get('remove_resolved')), **fitter_kwargs(W, scen))
     out = []
     for ln in lines:
         if len(ln.split()) < 3:
